@@ -553,6 +553,201 @@ def rule_hc45(prog):
     return r4, r5
 
 
+# ---------------------------------------------------------------------------
+# R-HC-7  no table keyed by the identity of a node outlives the operation
+# ---------------------------------------------------------------------------
+
+_FRESH_CALLS = ('dict', 'set', 'list', 'OrderedDict', 'defaultdict')
+
+
+def _fresh_container(e):
+    if isinstance(e, (ast.Dict, ast.Set, ast.List, ast.DictComp, ast.SetComp,
+                      ast.ListComp)):
+        return True
+    return isinstance(e, ast.Call) and isinstance(e.func, ast.Name) and \
+        e.func.id in _FRESH_CALLS
+
+
+def identity_keyed_tables(fnode):
+    """[(line, table expression, key expression, why)] -- places in one
+    function where `id(x)` (directly or through local variables) is used as
+    (part of) a key of a container that the function has not allocated
+    itself: a module / class level table or a field of an object.  The
+    identity of a node is unique only while the node is alive; the unique
+    table is weak, so a dropped diagram frees its nodes and the next node may
+    get the same identity."""
+    params = {a.arg for a in fnode.args.args + fnode.args.kwonlyargs}
+    if fnode.args.vararg:
+        params.add(fnode.args.vararg.arg)
+    if fnode.args.kwarg:
+        params.add(fnode.args.kwarg.arg)
+    shadow = 'id' in params
+    assigns = {}
+    for n in ast.walk(fnode):
+        if isinstance(n, ast.Assign):
+            for t in n.targets:
+                for m in ast.walk(t):
+                    if isinstance(m, ast.Name) and \
+                            isinstance(m.ctx, ast.Store):
+                        assigns.setdefault(m.id, []).append(n.value)
+        elif isinstance(n, (ast.AugAssign, ast.AnnAssign)) and \
+                isinstance(n.target, ast.Name) and n.value is not None:
+            assigns.setdefault(n.target.id, []).append(n.value)
+        elif isinstance(n, (ast.For, ast.comprehension)):
+            for m in ast.walk(n.target):
+                if isinstance(m, ast.Name):
+                    assigns.setdefault(m.id, []).append(n.iter)
+    if 'id' in assigns:
+        shadow = True
+    tainted = set()
+
+    def has_id(e):
+        for m in ast.walk(e):
+            if not shadow and isinstance(m, ast.Call) and \
+                    isinstance(m.func, ast.Name) and m.func.id == 'id':
+                return True
+            if isinstance(m, ast.Name) and m.id in tainted and \
+                    isinstance(m.ctx, ast.Load):
+                return True
+        return False
+    changed = True
+    while changed:
+        changed = False
+        for nm, vals in assigns.items():
+            if nm not in tainted and any(has_id(v) for v in vals):
+                tainted.add(nm)
+                changed = True
+
+    def persistent(base):
+        """the table is not an object this call has made"""
+        b = base
+        while isinstance(b, ast.Subscript):
+            b = b.value
+        if isinstance(b, ast.Attribute):
+            return 'field / class attribute `%s`' % ast.unparse(b)
+        if isinstance(b, ast.Name):
+            if b.id in params:
+                return None         # handed in: provenance is R-BDD-6's
+            vals = assigns.get(b.id)
+            if vals is None:
+                return 'module-level table `%s`' % b.id
+            if all(_fresh_container(v) for v in vals):
+                return None
+            if any(isinstance(v, (ast.Attribute, ast.Name)) for v in vals):
+                for v in vals:
+                    if isinstance(v, ast.Attribute):
+                        return 'field / class attribute `%s`' % \
+                            ast.unparse(v)
+                    if isinstance(v, ast.Name) and v.id not in params and \
+                            v.id not in assigns:
+                        return 'module-level table `%s`' % v.id
+            return None
+        return None
+    out = []
+    for n in ast.walk(fnode):
+        if isinstance(n, ast.Subscript) and has_id(n.slice):
+            why = persistent(n.value)
+            if why:
+                out.append((n.lineno, ast.unparse(n.value),
+                            ast.unparse(n.slice), why))
+        elif isinstance(n, ast.Compare) and has_id(n.left) and \
+                len(n.ops) == 1 and isinstance(n.ops[0], (ast.In, ast.NotIn)):
+            why = persistent(n.comparators[0])
+            if why:
+                out.append((n.lineno, ast.unparse(n.comparators[0]),
+                            ast.unparse(n.left), why))
+        elif isinstance(n, ast.Call) and isinstance(n.func, ast.Attribute) \
+                and n.func.attr in ('get', 'setdefault', 'pop', 'add',
+                                    'discard', 'remove', '__contains__',
+                                    '__getitem__', '__setitem__') and \
+                n.args and has_id(n.args[0]):
+            why = persistent(n.func.value)
+            if why:
+                out.append((n.lineno, ast.unparse(n.func.value),
+                            ast.unparse(n.args[0]), why))
+    return out
+
+
+_POSITIVE = """
+def restrict(self, var, value):
+    key = (id(self), var, value)
+    if key not in _memo:
+        _memo[key] = compute(self, var, value, dict())
+    return _memo[key]
+"""
+_NEGATIVE = """
+def restrict(self, var, value, cache=None):
+    seen = dict()
+    seen[id(self)] = 1
+    if id(self) in cache:
+        return cache[id(self)]
+    return id(self)
+"""
+
+
+def rule_hc7(prog):
+    r = RuleResult('R-HC-7', 'no table keyed by the identity (id) of a node '
+                   'outlives the operation that filled it')
+    # the rule expects no match on a correct tree: its matcher is exercised
+    # on a positive and a negative example on every run
+    pos = identity_keyed_tables(ast.parse(_POSITIVE).body[0])
+    neg = identity_keyed_tables(ast.parse(_NEGATIVE).body[0])
+    if len(pos) < 2 or neg:
+        raise Inconclusive('R-HC-7', 'matcher self-test failed: %r / %r' % (
+            pos, neg), 'pmcv/rules/c16.py')
+    from .c17 import _module_functions
+    n = 0
+    for mn in ('BDD.BDD', 'BDD.OBDD', 'BDD.ordering'):
+        try:
+            fs = _module_functions(prog, mn)
+        except Exception:
+            continue
+        for f in fs:
+            n += 1
+            hits = identity_keyed_tables(f.node)
+            uses_id = any(isinstance(m, ast.Call) and
+                          isinstance(m.func, ast.Name) and m.func.id == 'id'
+                          for m in ast.walk(f.node))
+            if uses_id or hits:
+                r.inst(function=f.short(), uses_id=uses_id,
+                       identity_keyed_persistent_tables=[h[1] for h in hits])
+            # an entry that also holds the node keeps it alive: its
+            # identity cannot be reused while the entry exists
+            idargs = {m.args[0].id for m in ast.walk(f.node)
+                      if isinstance(m, ast.Call) and
+                      isinstance(m.func, ast.Name) and m.func.id == 'id' and
+                      m.args and isinstance(m.args[0], ast.Name)}
+            for (line, table, key, why) in hits:
+                pinned = any(
+                    isinstance(a, ast.Assign) and any(
+                        isinstance(t, ast.Subscript) and
+                        ast.unparse(t.value) == table for t in a.targets) and
+                    any(isinstance(m, ast.Name) and m.id in idargs
+                        for m in ([a.value] + list(getattr(a.value, 'elts',
+                                                           []))))
+                    for a in ast.walk(f.node))
+                if pinned:
+                    raise Inconclusive(
+                        'R-HC-7', '%s keys `%s` by id() but the entries hold '
+                        'the node itself; lifetime not decided' % (
+                            f.short(), table),
+                        '%s:%d' % (f.module.relpath, line))
+                r.fail(Finding(
+                    PROP, 'R-HC-7', '%s:%d' % (f.module.relpath, line),
+                    f.short(), 'id-key:%s' % table,
+                    '%s uses `%s` -- built from id() of a node -- as a key '
+                    'of the %s, which outlives the call and holds no '
+                    'reference to the node: once the diagram is dropped its '
+                    'nodes are freed (the unique table is weak), a new node '
+                    'can get the same identity and is answered with the '
+                    'entry of the dead one' % (f.short(), key, why)))
+            if not hits:
+                r.ok()
+    floor('R-HC-7', 'functions of the BDD package scanned', n, 40)
+    r.notes.append('matcher self-test: positive example %d hits, negative '
+                   'example 0 hits' % len(pos))
+    return r
+
 
 def _documented_node_fields(prog, rule):
     """the rules below address the fields of a node by the names the
@@ -593,8 +788,14 @@ def run(prog, tier, seed):
     assumptions = ['WeakSet iteration yields exactly the live parents',
                    'single-threaded use', 'no reflection']
     from . import c17
-    dep = adopt(T.results(T(c17.rule_bdd6, prog),
-                          T(lambda pr: c17.rule_bdd1(pr, tier)[0], prog)),
-                PROP, 'operations must return the canonical node')
-    return T.results(r1, r2, r3, r4, r5) + dep, expl, assumptions, \
+    b1, found = T(c17.rule_bdd1, prog, tier, _n=2)
+    if found is None:
+        found = T(c17.discover_steps, prog)
+    b34 = T(c17.rule_bdd34, prog, found, _n=2) if found is not None \
+        else (None, None)
+    dep = adopt(T.results(T(c17.rule_bdd6, prog), b1, *b34),
+                PROP, 'operations must return the canonical node of the '
+                'right function')
+    r7 = T(rule_hc7, prog)
+    return T.results(r1, r2, r3, r4, r5, r7) + dep, expl, assumptions, \
         T.extra()
